@@ -102,6 +102,8 @@ func (Engine) Shrink(plan interface{}, try func(interface{}) bool) interface{} {
 		}
 		simpler := []func(*Plan) bool{
 			func(p *Plan) bool { ok := p.Churn > 0; p.Churn = 0; return ok },
+			func(p *Plan) bool { ok := p.FreshAt > 0; p.FreshAt = 0; return ok },
+			func(p *Plan) bool { ok := p.Cold; p.Cold = false; return ok },
 			func(p *Plan) bool { ok := p.Cfg.PYields; p.Cfg.PYields = false; return ok },
 			func(p *Plan) bool { ok := p.Cfg.StallTask >= 0; p.Cfg.StallTask = -1; return ok },
 			func(p *Plan) bool {
